@@ -34,6 +34,9 @@
 #ifndef BIG_LAST
 #define BIG_LAST NOPS
 #endif
+#ifndef TSS_LAST
+#define TSS_LAST NOPS  // operations in the last TSS cycle
+#endif
 #ifndef MID5
 #define MID5 1  // operations in the middle cycle of the nested shape TSD<int,TSS<int>>
 #endif
